@@ -7,6 +7,9 @@ git checkout -q -- .
 demo_src=$(ls $sd/*_test.go | head -1)
 dst=$(jq -r .demo_path_in_repo $sd/meta.json)
 runre=$(jq -r .demo_run_cmd $sd/meta.json | grep -o "\-run [A-Za-z0-9_]*" | head -1)
+tags=$(jq -r .demo_run_cmd $sd/meta.json | grep -o "\-tags [A-Za-z0-9_]*" | head -1)
+runre="$tags $runre"
+mkdir -p $wt/$(dirname $dst)
 pkg=./$(dirname $dst)/
 cp $demo_src $wt/$dst
 echo "--- unpatched demo (must pass)"
@@ -15,12 +18,12 @@ a=${PIPESTATUS[0]}
 git apply $sd/patch.diff || { echo APPLY-FAILED; rm -f $wt/$dst; exit 2; }
 echo "--- patched: build + suite (must pass)"
 go build ./... 2>&1 | tail -3
-mv $wt/$dst /tmp/demo_hold_test.go
+mv $wt/$dst /tmp/demo_hold_$$.go
 go test -vet=off -count=1 ./... 2>&1 | grep -v "^ok\|no test files" | tail -5
 s=${PIPESTATUS[0]}
-mv /tmp/demo_hold_test.go $wt/$dst
+mv /tmp/demo_hold_$$.go $wt/$dst
 echo "--- patched demo (must fail)"
 go test -vet=off -count=1 $runre $pkg 2>&1 | tail -4
 b=${PIPESTATUS[0]}
-git checkout -q -- .; rm -f $wt/$dst
+git checkout -q -- .; rm -f $wt/$dst; rmdir -p $wt/$(dirname $dst) 2>/dev/null
 echo "RESULT unpatched=$a suite=$s patched=$b"
